@@ -960,6 +960,36 @@ def m_option_more(ex, st, c):
     raise Unsupported('Option::' + op)
 
 
+def merged_search(ex, st, it, clo, op, recv):
+    """any / all / position over a list whose elements are known: the predicate is applied to every element first (it normally
+    does not fork), then the answer is assembled as one value (any/all: a boolean term; position: Some(first index) | None),
+    instead of forking at every element"""
+    items = list(it.items[it.pos:])
+
+    def go(i, acc):
+        if i == len(items): return fin(acc)
+
+        def cont(e_, s_, r):
+            r = simp_bool(r) if not isinstance(r, bool) else r
+            if op in ('any', 'position') and r is True: return fin(acc + (r,))
+            if op == 'all' and r is False: return fin(acc + (r,))
+            return LazyR(lambda: go(i + 1, acc + (r,)))
+        return CallFn(clo, [items[i]], cont)
+
+    def fin(rs):
+        if op == 'any': return b_or(*rs) if rs else False
+        if op == 'all': return b_and(*rs) if rs else True
+        found = b_or(*rs) if rs else False
+        if found is False: return NONE
+        idx = 0
+        for i in range(len(rs) - 1, -1, -1):
+            if rs[i] is False: continue
+            idx = ite_bv(rs[i], i, idx, LW) if rs[i] is not True else i
+        if found is True: return Some(usize(idx))
+        return Fork([(found, Some(usize(idx))), (b_not(found), NONE)])
+    return go(0, ())
+
+
 # the older generic any/all/position model only knows base iterators: route adaptors to the CPS consumer
 def _wrap_iter_any():
     old = MD.m_iter_any
@@ -967,6 +997,8 @@ def _wrap_iter_any():
     def m_iter_any2(ex, st, c):
         it = D(ex, st, c.args[0])
         if is_adapt(it) or (isinstance(it, Opaque) and it.tag in ('SplitN', 'StrLines', 'SplitIncl', 'Range', 'RangeInclusive')): return m_g_consume(ex, st, c)
+        if isinstance(it, Iter) and len(it.items) - it.pos >= 4:
+            return merged_search(ex, st, it, c.args[1], strip_generics(c.callee).rsplit('::', 1)[1], c.args[0])
         return old(ex, st, c)
     for i, (pat, fn) in enumerate(MD.REGISTRY):
         if fn is old: MD.REGISTRY[i] = (pat, m_iter_any2)
